@@ -346,6 +346,73 @@ def _chain_cases(chk: Check) -> None:
             )
 
 
+def _two_gates_in_one_chain(chk: Check, rng: random.Random) -> None:
+    """chain_authenticate(require_all(gateA, innerA), require_all(gateB, innerB)): AND inside each alternative.
+
+    The two gates trust different proxies (own kid / secret).  A request carries at most one proof, so it can satisfy
+    gate A, gate B or neither.  Reference (require_all / chain_authenticate documentation): alternatives are tried
+    left to right; a gate failure is a refusal that chain composition propagates (it ends the chain, it is not "try
+    the next"); an inner rejection moves on to the next alternative; an inner is consulted only after ITS OWN gate
+    verified the request, and the request is authenticated only by an alternative whose own gate verified it.
+    """
+    import falcon
+    import falcon.testing
+
+    from vgi_rpc.http import ProxyProofConfig, chain_authenticate, proxy_proof_gate, require_all
+    from vgi_rpc.rpc import AuthContext
+
+    kid_b, label_b = "edge-2", "proxy-B"
+    for order in ("AB", "BA"):
+      for proof_for in ("A", "B", "none"):
+        for inner_a in ("accept", "reject"):
+            for inner_b in ("accept", "reject"):
+                  calls = {"A": 0, "B": 0}
+
+                  def mk_inner(name: str, verdict: str) -> Any:
+                      def inner(req: Any) -> Any:
+                          calls[name] += 1
+                          if verdict == "reject":
+                              raise ValueError(f"inner {name} says no")
+                          return AuthContext(domain=f"dom{name}", authenticated=True, principal=f"user-{name}")
+
+                      return inner
+
+                  gate_a = proxy_proof_gate(ProxyProofConfig(mode="require", origin_id=ORIGIN, secrets={KID: (SECRET, LABEL)}, skew_seconds=SKEW), now=lambda: T0)  # type: ignore[arg-type]
+                  gate_b = proxy_proof_gate(ProxyProofConfig(mode="require", origin_id=ORIGIN, secrets={kid_b: (SECRET2, label_b)}, skew_seconds=SKEW), now=lambda: T0)  # type: ignore[arg-type]
+                  alts = {"A": require_all(gate_a, mk_inner("A", inner_a)), "B": require_all(gate_b, mk_inner("B", inner_b))}
+                  fn = chain_authenticate(*[alts[x] for x in order])
+                  hdrs = {}
+                  if proof_for == "A":
+                      hdrs[PROOF_HEADER] = mint(SECRET, KID, ORIGIN, T0, rng=rng)
+                  elif proof_for == "B":
+                      hdrs[PROOF_HEADER] = mint(SECRET2, kid_b, ORIGIN, T0, rng=rng)
+                  req = falcon.Request(falcon.testing.create_environ(path="/whoami", method="POST", headers=hdrs))
+                  try:
+                      got = fn(req)
+                      outcome = _ident(got)
+                  except Exception as exc:  # noqa: BLE001
+                      got, outcome = None, f"rejected:{type(exc).__name__}"
+                  want = False
+                  for alt in order:
+                      if proof_for != alt:
+                          break  # this alternative's gate refuses: the refusal propagates
+                      if {"A": inner_a, "B": inner_b}[alt] == "accept":
+                          want = True
+                          break
+                  cls = f"two_gates|order={order}|proof={proof_for}|innerA={inner_a}|innerB={inner_b}"
+                  chk.case(cls)
+                  chk.hit("two_gate_chain_judged")
+                  wit = {"order": order, "proof_satisfies": proof_for, "inner_a": inner_a, "inner_b": inner_b, "outcome": outcome, "inner_calls": dict(calls)}
+                  authed = got is not None and getattr(got, "authenticated", False)
+                  if authed and not want:
+                      chk.violation(f"authenticated_without_own_gate:two_gates:proof={proof_for}", "a request was authenticated by an alternative whose own gate did not verify it", wit)
+                  elif want and not authed:
+                      chk.violation("two_gates:valid_alternative_refused", "an alternative with a verified gate and an accepting inner was not honoured", wit)
+                  for name in ("A", "B"):
+                      if calls[name] and proof_for != name:
+                          chk.violation(f"inner_consulted_after_gate_failure:two_gates:{name}", "require mode: the inner authenticator of an alternative was consulted although that alternative's gate had not verified the request", wit)
+
+
 def run_shard(job: dict[str, Any]) -> dict[str, Any]:
     chk = Check(PID, job["tier"], job["seed"])
     rng = random.Random(job["seed"])
@@ -358,6 +425,7 @@ def run_shard(job: dict[str, Any]) -> dict[str, Any]:
                         _judge(chk, rig, mode, inner_kind, state, _proof_headers(state, rng), proven=(state == "valid"))
                 chk.sample({"mode": mode, "inner": inner_kind, "proof_states": PROOFS})
         _chain_cases(chk)
+        _two_gates_in_one_chain(chk, rng)
     else:  # fuzz: single-field mutations of valid proofs
         rigs = {(m, i): _build(m, i) for m in MODES for i in ("absent", "accept", "reject_failure")}
         for _ in range(job["count"]):
@@ -377,6 +445,7 @@ def run_shard(job: dict[str, Any]) -> dict[str, Any]:
 def _run(tier: str, seed: int) -> Check:
     chk = Check(PID, tier, seed, level=CATEGORY, rule=RULE)
     chk.require(
+        "two_gate_chain_judged",
         "require_gate_failure",
         "inner_rejects",
         "inner_accepts",
